@@ -91,7 +91,14 @@ func runRPC(d *Defs, svcKey, methodKey, payload string) string {
 	if !ok {
 		return "no-such-service:" + svcKey
 	}
-	parts := strings.SplitN(payload, "|", 3)
+	parts := strings.SplitN(payload, "|", 4)
+	k1, k2, k3 := 0, 0, 0
+	if len(parts) == 4 && strings.HasPrefix(parts[3], "mw=") {
+		ks := strings.Split(parts[3][3:], ",")
+		k1, _ = strconv.Atoi(ks[0])
+		k2, _ = strconv.Atoi(ks[1])
+		k3, _ = strconv.Atoi(ks[2])
+	}
 	tp := strings.Split(parts[0], ",")
 	transportKind, protoName := tp[0], tp[1]
 	argsSD, ok1 := d.Structs[methodKey+"_args"]
@@ -149,8 +156,48 @@ func runRPC(d *Defs, svcKey, methodKey, payload string) string {
 		return errors.New("undeclared failure")
 	}
 
+	// tracing (purely observing) middleware: constructor lists are labelled from 0, the provider's list
+	// continues the numbering (the labelling of FV.Mw / Driver.Middleware)
+	var trMu sync.Mutex
+	var clientTrace, procTrace []string
+	tracer := func(label int, tr *[]string, resTxt string) frugal.ServiceMiddleware {
+		return func(next frugal.InvocationHandler) frugal.InvocationHandler {
+			return func(service reflect.Value, method reflect.Method, args frugal.Arguments) frugal.Results {
+				trMu.Lock()
+				*tr = append(*tr, fmt.Sprintf("e%d:a", label))
+				trMu.Unlock()
+				res := next(service, method, args)
+				e := "-"
+				if res.Error() != nil {
+					e = "B"
+				}
+				trMu.Lock()
+				*tr = append(*tr, fmt.Sprintf("x%d:%s/%s", label, resTxt, e))
+				trMu.Unlock()
+				return res
+			}
+		}
+	}
+	var ctorMW, provMW, procMW []frugal.ServiceMiddleware
+	for i := 0; i < k1; i++ {
+		ctorMW = append(ctorMW, tracer(i, &clientTrace, "a|"))
+	}
+	for i := 0; i < k2; i++ {
+		provMW = append(provMW, tracer(k1+i, &clientTrace, "a|"))
+	}
+	for i := 0; i < k3; i++ {
+		procMW = append(procMW, tracer(i, &procTrace, "a|m0"))
+	}
+	innerCall := call
+	call = func(service, m string, fctx frugal.FContext, args []interface{}, ret interface{}) error {
+		trMu.Lock()
+		procTrace = append(procTrace, "b:a")
+		trMu.Unlock()
+		return innerCall(service, m, fctx, args, ret)
+	}
+
 	pf := protoFactory(protoName)
-	proc := entry.NewProcessor(call)
+	proc := entry.NewProcessor(call, procMW...)
 	var tr frugal.FTransport
 	switch transportKind {
 	case "http":
@@ -160,11 +207,16 @@ func runRPC(d *Defs, svcKey, methodKey, payload string) string {
 	default:
 		tr = &memTransport{proc: proc, pf: pf}
 	}
+	tr = &baseMark{FTransport: tr, mark: func() {
+		trMu.Lock()
+		clientTrace = append(clientTrace, "b:a")
+		trMu.Unlock()
+	}}
 	if err := tr.Open(); err != nil {
 		return "open-failed:" + errClass(err)
 	}
 	defer tr.Close()
-	client := reflect.ValueOf(entry.NewClient(frugal.NewFServiceProvider(tr, pf)))
+	client := reflect.ValueOf(entry.NewClient(frugal.NewFServiceProvider(tr, pf, provMW...), ctorMW...))
 	mv := client.MethodByName(titleFirst(method))
 	if !mv.IsValid() {
 		return "client-has-no-method:" + method
@@ -274,7 +326,42 @@ func runRPC(d *Defs, svcKey, methodKey, payload string) string {
 	if ncalls > 0 && cidSeen != "cid-"+method {
 		cidOK = "cid=" + cidSeen
 	}
-	return fmt.Sprintf("calls=%d args=%s %s result=%s", ncalls, argsDump, cidOK, result)
+	out := fmt.Sprintf("calls=%d args=%s %s result=%s", ncalls, argsDump, cidOK, result)
+	if len(parts) == 4 {
+		trMu.Lock()
+		ce, pe := "-", "-"
+		if !errv.IsNil() {
+			ce = "B"
+		}
+		if outcome[0] != 'v' {
+			pe = "B"
+		}
+		render := func(t []string, resTxt, e string) string {
+			if len(t) == 0 {
+				return ". R=" + resTxt + "/" + e
+			}
+			return strings.Join(t, ";") + " R=" + resTxt + "/" + e
+		}
+		out += " || " + render(clientTrace, "a|", ce) + " || " + render(procTrace, "a|m0", pe)
+		trMu.Unlock()
+	}
+	return out
+}
+
+// baseMark records when the emitted client's internal method reaches the transport (the "base" of the
+// client-side middleware chain).
+type baseMark struct {
+	frugal.FTransport
+	mark func()
+}
+
+func (b *baseMark) Oneway(ctx frugal.FContext, payload []byte) error {
+	b.mark()
+	return b.FTransport.Oneway(ctx, payload)
+}
+func (b *baseMark) Request(ctx frugal.FContext, payload []byte) (thrift.TTransport, error) {
+	b.mark()
+	return b.FTransport.Request(ctx, payload)
 }
 
 func init() {
